@@ -90,6 +90,12 @@ gauss(dist p) · property -/
 def blurSpec [LT β] [DecidableLT β] (expf sqrtf : β → β) (pi sigma cut : β) (np : Nat) (dist : Nat → β) (cond : Nat → β) : β :=
   sumRange np fun p => if dist p < cut then gauss expf sqrtf pi sigma (dist p) * cond p else 0
 
+/-- Spec with the cut-off decided on the squared distance (what the driver's `spec` mode evaluates: exact ℚ decision,
+hand-written `gauss` in `β`); equal to `blurSpec` by `C16_blur_spec_sq` -/
+def blurSpecSq [LT α] [DecidableLT α] (cast : α → β) (expf sqrtf : β → β) (pi sigma : β) (cut : α)
+    (np : Nat) (d2 : Nat → α) (cond : Nat → β) : β :=
+  sumRange np fun p => if selectedSq cut (d2 p) then gauss expf sqrtf pi sigma (sqrtf (cast (d2 p))) * cond p else 0
+
 end blur
 
 /-! ## time_average -/
